@@ -180,7 +180,7 @@ def exists(lo, hi, body, name='k'):
 
 class SSeq:
     """String ('str') or list of ints ('ilist') as (array, length)."""
-    __slots__ = ('arr', 'ln', 'kind', 'conc', 'tag')
+    __slots__ = ('arr', 'ln', 'kind', 'conc', 'tag', 'origin')
 
     def __init__(self, arr, ln, kind, conc=None, tag=None):
         self.arr = arr
@@ -188,6 +188,7 @@ class SSeq:
         self.kind = kind
         self.conc = conc        # python str / list when fully concrete
         self.tag = tag          # free-form provenance tag (ghost)
+        self.origin = None      # (base SSeq, offset): this is base[off:off+ln]
 
     def at(self, k):
         """code point / element at (already normalised) index k"""
@@ -315,7 +316,10 @@ def _seq_slice(s, lo, hi):
     else:
         az = zint(a)
         arr = lam(lambda k: s.at(az + k))
-    return SSeq(arr, n, kind)
+    r = SSeq(arr, n, kind)
+    base, off = s.origin if s.origin is not None else (s, 0)
+    r.origin = (base, zint(off) + zint(a))
+    return r
 
 
 def seq_repeat(x, n, kind='ilist'):
